@@ -335,6 +335,33 @@ def seqMatches (g : ValueFn) (skipZero : Bool) (fac : DecApi.Factory) (arch : Na
     (msgVariants g skipZero fac arch vst'.fds m).contains n && seqMatches g skipZero fac arch vst' ms ns
   | _, _, _ => false
 
+/-- a decoded message handed back to the encoder: every field with the attributes of the `FieldBase` the decoder gave it
+(scale 1, offset 0: the factories of the decoder-API model) -/
+def ofDecoded (m : DecApi.Msg) : Message :=
+  { num := m.num,
+    fields := m.fields.map (fun d =>
+      ({ base := some { num := d.num, baseType := d.bt, array := d.array, nameKnown := d.known, profileBool := d.isBool },
+         value := d.value, isExpanded := d.expanded } : Field)),
+    devFields := m.devs.map (fun d => ({ devIdx := d.idx, num := d.num, value := d.value } : DevField)) }
+
+/-- a validated message taken literally: numbers, base types of the `FieldBase`s, values as they are -/
+def literal (m : Message) : NMsg :=
+  ⟨m.num, m.fields.filterMap (fun f => f.base.map fun b => ⟨b.num, b.baseType, f.value⟩),
+    m.devFields.map fun d => ⟨d.num, d.devIdx, d.value⟩⟩
+
+/-- values taken literally -/
+def idValue : ValueFn := fun _ _ _ v => v
+
+/-- the values of the messages are in wire-normal form for the decoder's factory: each allowed form of a message, computed
+with `normalValue`, is that form of the message with its values as they are — every value is its own normal form under the
+flags the decoder reads it with (what a decoder returned is), every base type is the one the decoder returns -/
+def seqNormal (fac : DecApi.Factory) (arch : Nat) : Validator.State → List Message → Bool
+  | _, [] => true
+  | vst, m :: ms =>
+    let vst' := Validator.remember vst m.num m.fields
+    (msgVariants normalValue false fac arch vst'.fds m == msgVariants idValue false fac arch vst'.fds m) &&
+      seqNormal fac arch vst' ms
+
 /-- **what the code returns** for the validated messages of one sequence -/
 def actualSeq (fac : DecApi.Factory) (w : Wire.Opts) (kept : List Message) : List NMsg :=
   seqBack reread true fac w {} kept
@@ -382,6 +409,16 @@ def seqClass (p : Nat → Bool → Bool → Value → Bool) (fac : DecApi.Factor
 def kfZero (fac : DecApi.Factory) (kept : List Message) : Bool := seqClass (fun _ _ _ v => kfZeroV v) fac {} kept
 def kfArr (fac : DecApi.Factory) (kept : List Message) : Bool := seqClass kfArrV fac {} kept
 def kfFFFD (fac : DecApi.Factory) (kept : List Message) : Bool := seqClass (fun _ _ _ v => kfFFFDV v) fac {} kept
+
+/-- a decoded `typedef.Bool` array holding a byte other than 0 / 1 / 255: `UnmarshalValue` returns array elements as they
+are (a single `Bool` is clamped to invalid), `MarshalAppend` writes 255 for them — re-encoding what the decoder returned
+gives other messages -/
+def kfBoolArrV : Value → Bool
+  | .sliceBool xs => xs.any (fun x => x != 0 && x != 1 && x != 255)
+  | _ => false
+
+def kfBoolArr (fits : List DecApi.Fit) : Bool :=
+  fits.any fun f => f.msgs.any fun m => m.fields.any (fun d => kfBoolArrV d.value) || m.devs.any (fun d => kfBoolArrV d.value)
 
 /-! ### the typing assumptions of the theorems -/
 
